@@ -310,6 +310,33 @@ fn unique_word(counter: &mut u32, rng: &mut Rng) -> u32 {
     (*counter << 12) | (rng.u32() & 0xFFF)
 }
 
+/// History over a small pool of words (blank, 1, a few real cards, an extreme): repeated words are
+/// the point — a setter that "moves" or de-duplicates a word already held elsewhere, or an accessor
+/// that searches by value, is invisible to histories whose words are all different. The array model
+/// comparison stays exact; only the localisation of a fault is less direct than with unique words.
+fn pooled_history(n: usize, len: usize, rng: &mut Rng) -> Vec<Op> {
+    const POOL: [u32; 8] = [0, 1, 0x10008C29, 0x08004B25, 0x00011002, 0x00012002, 0xFFFF_FFFF, 0x30008C29];
+    let pool = 2 + rng.below(7) as usize; // sometimes only {0, 1}
+    let mut pick = |rng: &mut Rng| POOL[rng.below(pool as u64) as usize];
+    let mut ops = Vec::with_capacity(len);
+    let w: Vec<u32> = (0..n).map(|_| pick(rng)).collect();
+    ops.push(Op::New(rng.below(ctor_forms(n) as u64) as usize, w));
+    for _ in 1..len {
+        let r = rng.below(20);
+        ops.push(if r < 15 {
+            Op::Set(rng.below(n as u64) as usize, pick(rng))
+        } else if r < 17 {
+            Op::Rebuild(rng.below(ctor_forms(n) as u64) as usize)
+        } else if r < 19 {
+            Op::CopyAndScribble(rng.below(n as u64) as usize, pick(rng))
+        } else {
+            let w: Vec<u32> = (0..n).map(|_| pick(rng)).collect();
+            Op::New(rng.below(ctor_forms(n) as u64) as usize, w)
+        });
+    }
+    ops
+}
+
 fn random_history(n: usize, len: usize, rng: &mut Rng) -> Vec<Op> {
     let mut counter = rng.below(1 << 19) as u32;
     let mut ops = Vec::with_capacity(len);
@@ -399,6 +426,24 @@ pub fn run(ctx: &Ctx) -> Rep {
                     }
                 }
             }
+            // directed repeated-word pass: for every size, every written slot s and every other slot p,
+            // write into s the word currently held in p (and blank into a full hand)
+            for n in 2..=7usize {
+                for s in 0..n {
+                    for p in 0..n {
+                        if p == s {
+                            continue;
+                        }
+                        let mut counter = (5000 + n * 100 + s * 10 + p) as u32;
+                        let w: Vec<u32> = (0..n).map(|_| unique_word(&mut counter, &mut rng)).collect();
+                        let held = w[p];
+                        let ops = vec![Op::New(0, w), Op::Set(s, held), Op::Set(p, 0), Op::Set(s, 0), Op::Set(p, held), Op::Set(s, held)];
+                        run_history(&mut st, n, &ops);
+                        st.rep.distinct += 1;
+                        st.rep.add("directed_repeated_word_histories", 1);
+                    }
+                }
+            }
             for n in [6usize, 7] {
                 check_selection(&mut st, n, &mut rng);
             }
@@ -417,7 +462,11 @@ pub fn run(ctx: &Ctx) -> Rep {
         let mut rng = Rng::new(seed, 0xC19_1000 + ch as u64);
         for it in 0..(n_hist / chunks) {
             let n = 2 + (it % 6);
-            let ops = random_history(n, 40, &mut rng);
+            // alternate: unique words (unambiguous localisation) / a small pool (repeated words)
+            let ops = if (it / 6) % 2 == 0 { random_history(n, 40, &mut rng) } else { pooled_history(n, 40, &mut rng) };
+            if (it / 6) % 2 == 1 {
+                st.rep.add("histories_over_a_small_word_pool(repeated words)", 1);
+            }
             run_history(st, n, &ops);
             st.rep.distinct += 1;
             if st.rep.want_sample() && it % 997 == 5 {
@@ -431,7 +480,7 @@ pub fn run(ctx: &Ctx) -> Rep {
     rep.exhaustive = Some(false);
     rep.rule = format!(
         "a directed history per size and constructor form (every slot written, copied, rebuilt through every form, extreme words), all 6^5 and 7^5 in-range index tuples \
-         for five-slot selection, and {} seeded histories of 40 operations (set / rebuild / copy-and-scribble / reconstruct) with unique words, compared with an array model after every operation; \
+         for five-slot selection, and {} seeded histories of 40 operations (set / rebuild / copy-and-scribble / reconstruct), half with unique words and half over a small pool of repeated words, plus a directed pass writing into every slot the word held by every other slot, compared with an array model after every operation; \
          distinct = histories + tuples (seeded histories differ with overwhelming probability; not hashed)",
         n_hist
     );
